@@ -33,15 +33,24 @@ fn strip_caps(w: &str) -> String {
     out
 }
 /// one step on the real code: returns (ret, after bytes, probe)
-pub fn exec_step(t: &dyn TypeOps, ar: &mut Arena, place: Place, pre: &[u8], op: &Op) -> (String, Vec<u8>, String, bool) {
+pub fn exec_step(t: &dyn TypeOps, ar: &mut Arena, place: Place, pre: &[u8], op: &Op) -> (String, Vec<u8>, String, bool, bool) {
     let (start, sl) = ar.place(pre, place, FILL);
     let len = sl.len();
     let r = guarded(|| t.edit(sl, op));
     let ret = match r { None => "PANIC".to_string(), Some(Err(e)) => format!("notvalid:{}", err_str(&e)), Some(Ok(s)) => s };
     let after = sl.to_vec();
     let p = probe_str(t, sl);
+    let remap = remap_same(t, sl);
     let intact = ar.outside_intact(start, len, FILL);
-    (ret, after, p, intact)
+    (ret, after, p, intact, remap)
+}
+/// the value's own bytes (`as_bytes()`) validate and map to the same state again: same extent, same `size()`, same content and
+/// the same capacities
+pub fn remap_same(t: &dyn TypeOps, sl: &[u8]) -> bool {
+    guarded(|| match t.probe(sl).res {
+        Ok((v, _, z, wc, _)) => v <= sl.len() && matches!(t.probe(&sl[..v]).res, Ok((v2, _, z2, wc2, _)) if v2 == v && z2 == z && wc2 == wc),
+        Err(_) => true,
+    }).unwrap_or(true)
 }
 
 // ---- abstract state: the initialiser language doubles as the abstract value -------------------
@@ -72,12 +81,12 @@ fn abs_apply(sh: &Shape, d: &mut D, op: &Op, ret: &str, cap: Option<usize>) -> O
         Op::PushChar(c) => { let mut b = [0u8; 4]; let s = char::from_u32(*c).unwrap().encode_utf8(&mut b).as_bytes().to_vec();
             if let D::StrFrom(cur) = d { if cap.map(|k| cur.len() + s.len() <= k).unwrap_or(ret == "ok") { cur.extend(s); Some("ok".into()) } else { Some("full".into()) } } else { panic!("abs: not a string") } }
         Op::PushStr(s) => { if let D::StrFrom(cur) = d { if cap.map(|k| cur.len() + s.len() <= k).unwrap_or(ret == "ok") { cur.extend(s.iter().cloned()); Some("ok".into()) } else { Some("full".into()) } } else { panic!("abs: not a string") } }
-        Op::FPush(x) => { if ret == "ok" { abs_items(d).push(x.clone()); } None }
+        Op::FPush(x) => { if ret == "ok" { abs_items(d).push(x.strip_def()); } None }
         Op::FPop => { let v = abs_items(d); Some(if v.pop().is_some() { "ok".into() } else { "empty".into() }) }
         Op::FTruncate(n) => { abs_items(d).truncate(*n); Some("ok".into()) }
         Op::FClear => { abs_items(d).clear(); Some("ok".into()) }
         Op::Item(i, o) => { let v = abs_items(d); if *i < v.len() { let e = match sh { Shape::Flex(e, _) => e, _ => panic!() }; abs_apply(e, &mut v[*i], o, ret, None) } else { Some("noitem".into()) } }
-        Op::Assign(x) => { if ret == "ok" { *d = x.clone(); } None }
+        Op::Assign(x) => { if ret == "ok" { *d = x.strip_def(); } None }
     }
 }
 /// capacity of the top-level container as the walk reports it (`V<cap>[` / `S<cap>:`)
@@ -210,14 +219,16 @@ pub fn run(reg: &[Box<dyn TypeOps>], cfg: &Cfg, out: &mut dyn Write) {
                 write!(out, "O {} {} {} {} {} => ", tid, pc(place), a16, hex(&state), op.text()).unwrap();
                 out.flush().unwrap();
                 let before = probe_str(t.as_ref(), { let (_, sl) = ar.place(&state, place, FILL); sl });
-                let (ret, after, p, intact) = exec_step(t.as_ref(), &mut ar, place, &state, &op);
+                let (ret, after, p, intact, remap) = exec_step(t.as_ref(), &mut ar, place, &state, &op);
                 let want = abs_apply(&sh, &mut abs, &op, &ret, cap0);
                 let absr = render_init(&sh, &abs).replace(' ', "_");
                 let capn = top_cap(&p);
                 write!(out, "{} {} p={} abs={} same={}", ret, hex(&after), p, absr, if strip_caps(&before) == strip_caps(&p) { 1 } else { 0 }).unwrap();
                 if let Some(w) = &want { write!(out, " want={}", w).unwrap(); }
                 if capn != cap0 { write!(out, " CAP-CHANGED").unwrap(); }
-                if !intact { write!(out, " OUTSIDE-WRITTEN").unwrap(); }
+                if !remap { write!(out, " REMAP-DIFF").unwrap(); }
+                if !remap { write!(out, " REMAP-DIFF").unwrap(); }
+    if !intact { write!(out, " OUTSIDE-WRITTEN").unwrap(); }
                 writeln!(out).unwrap();
                 if ret == "PANIC" && want.as_deref() != Some("PANIC") { break; }
                 if !p.starts_with("ok:") { break; }
@@ -239,8 +250,9 @@ pub fn exec_line(reg: &[Box<dyn TypeOps>], ar: &mut Arena, lhs: &str, out: &mut 
     write!(out, "{} => ", lhs).unwrap();
     out.flush().unwrap();
     let before = probe_str(t, { let (_, sl) = ar.place(&pre, place, FILL); sl });
-    let (ret, after, p, intact) = exec_step(t, ar, place, &pre, &op);
+    let (ret, after, p, intact, remap) = exec_step(t, ar, place, &pre, &op);
     write!(out, "{} {} p={} same={}", ret, hex(&after), p, if strip_caps(&before) == strip_caps(&p) { 1 } else { 0 }).unwrap();
+    if !remap { write!(out, " REMAP-DIFF").unwrap(); }
     if !intact { write!(out, " OUTSIDE-WRITTEN").unwrap(); }
     writeln!(out).unwrap();
 }
